@@ -56,6 +56,8 @@ def check(run: Run) -> None:
     run.rule("S4", "unevaluated derivatives and non-numbers are refused; Quantity.__init__ tests complex(scale) before registering the quantity")
     run.rule("S6", "Mul/Add/Pow handlers combine child values with their own operator and child dimensions with * / ** / nothing")
     w = World(run.src)
+    from .c04 import _k5
+    _k5(run, w)  # the any-dimension predicate itself (shared with C04): exactly {0, +oo, -oo, NaN}, magnitude independent
     info = run_collector_rules(run, w, CQ, None)
     mod, h = info["mod"], info["handlers"]
     if any(k not in h for k in ("Mul", "Add", "Pow", "Derivative", "SymFunction", "SymQuantity", "Prefix")):
